@@ -341,6 +341,32 @@ func rtcpDeviationGrammar(local, remote uint32, emit func(input)) {
 	}
 }
 
+// numbersGrammar: well-formed packets whose sequence number, transport-wide sequence number and RTP
+// timestamp walk through every ordered pair of boundary values (the inputs of one job are fed to one
+// instance in order, so each pair is a transition the instance sees): 0, 1, 2, 2^15-2 .. 2^15+1, 2^16-2,
+// 2^16-1; timestamps 0, 2^31, 2^32-1 and a plain one.
+func numbersGrammar(ssrc uint32, out bool, emit func(input)) {
+	bounds := []uint16{0, 1, 2, 0x7FFE, 0x7FFF, 0x8000, 0x8001, 0xFFFE, 0xFFFF}
+	stamps := []uint32{90000, 0, 1 << 31, 1<<32 - 1}
+	k := 0
+	for _, a := range bounds {
+		for _, b := range bounds {
+			for _, q := range []uint16{a, b} {
+				k++
+				h, p := hk.Shape(0, ssrc, q, stamps[k%len(stamps)])
+				_ = h.SetExtension(hk.TwccExtID, []byte{byte(q >> 8), byte(q)})
+				desc := fmt.Sprintf("well-formed packet seq=%d (pair %d -> %d) ts=%d", q, a, b, h.Timestamp)
+				if out {
+					hc := h
+					emit(input{hdr: &hc, payload: p, desc: "rtp-out " + desc})
+				} else {
+					emit(input{raw: hk.MarshalRTP(h, p), desc: "rtp " + desc})
+				}
+			}
+		}
+	}
+}
+
 func rtpOutGrammar(ssrc uint32, emit func(input)) {
 	for _, n := range []int{-1, 0, 1, 1459, 1460, 1461, 1500, 65535} {
 		for shape := 0; shape < 6; shape++ {
@@ -509,8 +535,11 @@ func jobs(tier string) []job {
 			}
 			out = append(out, job{k, "rtcp-in", "ccfb", 0, 1}, job{k, "rtcp-in", "deviations", 0, 1})
 		}
+		if cp.remote {
+			out = append(out, job{k, "rtp-in", "numbers", 0, 1})
+		}
 		if cp.local {
-			out = append(out, job{k, "rtp-out", "sizes", 0, 1})
+			out = append(out, job{k, "rtp-out", "sizes", 0, 1}, job{k, "rtp-out", "numbers-out", 0, 1})
 		}
 	}
 	return out
@@ -536,6 +565,10 @@ func generate(tier string, j job, emit func(input)) {
 		rtcpDeviationGrammar(local, remote, shard)
 	case "sizes":
 		rtpOutGrammar(local, shard)
+	case "numbers":
+		numbersGrammar(remote, false, shard)
+	case "numbers-out":
+		numbersGrammar(local, true, shard)
 	}
 }
 
